@@ -142,9 +142,19 @@ def build(repo=None):
                 if len(args) != 4 or not all(isinstance(a, Ref) for a in args):
                     raise Unsupported("set_shape_memo args")
                 s1 = s.clone()
-                if s1.ghost["top"] is not None:
-                    s1.ghost["top"] = list(args)
-                return [(s1, NONE)]
+                if s1.ghost["top"] is None:
+                    return [(s1, NONE)]
+                # contract of set_shape_memo (unit storage): the top frame holds the arguments' contents -- (a) the frame now IS the four
+                # argument dicts, or (b) the frame's own dicts were restored in place. Both are explored.
+                s2 = s.clone()
+                s1.ghost["top"] = list(args)
+                s1.path.append("set_shape_memo:frame-replaced")
+                for r, a_ in zip(s2.ghost["top"], args):
+                    if r.h != a_.h:
+                        src = s2.get(a_)
+                        s2.put(r, s2.get(r).with_(src.m, src.d))
+                s2.path.append("set_shape_memo:restored-in-place")
+                return [(s1, NONE), (s2, NONE)]
 
             def m_get_treeflatten(e, s, args, kwargs, node):
                 return [(s, Z("bool", TreeFlatten))]
